@@ -267,8 +267,8 @@ def _evidence(ctx, traces, cases, n):
     ctx.cov.update({
         "evaluations": n, "distinct_nontrivial": nontriv, "exhaustive": False,
         "traces_validated_against_impl": n, "samples": samples, "events_by_kind": by_ev, "cases_by_class": by_cls,
-        "rule": "TLC (ShutdownGen) enumerates shutdown schedule classes: 1..3 connections of 12 kinds (served before / idle "
-                "keep-alive / new request on an idle connection / handler returns after the flip / handler returns after "
+        "rule": "TLC (ShutdownGen) enumerates shutdown schedule classes: 1..3 connections of 13 kinds (served before / idle "
+                "keep-alive / new request on an idle connection / handler returns after the flip (HTTP/1.1, and HTTP/1.0 with keep-alive) / handler returns after "
                 "Shutdown returned / half-received request / connected but silent / 8 MiB response being written / dialled "
                 "during the shutdown / held in the OnAccept or OnConnect callback with its request already sent / seeded random request loop) x hooks {fast, slow, beyond the deadline} x second caller "
                 "{none, during, after return, after Run returned, racing} x exit wait time x idle time-out x "
